@@ -9,7 +9,7 @@ one ghost monitor per clause of the property (`Env.viol`); the theorems say that
 never fires in any reachable state, for every job, cluster, admissible heuristic choice
 (oracle) and schedule.
 -/
-import EkwVerif.Lemmas.CtrlInv1Step
+import EkwVerif.Lemmas.CtrlFinal
 
 namespace EkwVerif.Ctrl
 
@@ -44,6 +44,27 @@ theorem c02_idle_means_free (f : Sem) (j : Job) (cl : Cluster) (hw : cl.ids.Nodu
   have h := inv1_reachable f j cl hw s hr
   intro t hq
   exact h.idle_free w hi t (h.queued_flight w t hq)
+
+/-- **After its inputs exist.** At the moment a task is dispatched every dataset it consumes has
+been produced, and is present on the target host or a transfer of it to that host is
+outstanding (commanded earlier or in the same `act`). -/
+theorem c02_inputs_ready (f : Sem) (j : Job) (cl : Cluster) (wf : WF j cl) (s : Sys) (hr : Reachable f j cl s) :
+    "C02 input-not-produced" ∉ s.env.viol ∧ "C02 input-neither-present-nor-in-transfer" ∉ s.env.viol := by
+  have h := invAll_reachable f j cl wf s hr
+  exact ⟨h.h2.no_input_not_produced, h.h4.no_input_absent⟩
+
+/-- **Exactly once (lower half).** A task whose completion the controller has seen was
+dispatched exactly once and has really run. -/
+theorem c02_done_means_ran_once (f : Sem) (j : Job) (cl : Cluster) (wf : WF j cl) (s : Sys) (hr : Reachable f j cl s)
+    (t : Task) (hd : s.ctl.doneC t = true) : s.env.ran t = true ∧ s.env.dispatchedE t = 1 := by
+  have h := invAll_reachable f j cl wf s hr
+  have hran := h.h2.done_ran t hd
+  exact ⟨hran, by rw [h.h1.disp_eq]; exact (h.h2.ran_disp t hran).1⟩
+
+/-- A dispatched task is in flight on one worker only. -/
+theorem c02_one_worker (f : Sem) (j : Job) (cl : Cluster) (wf : WF j cl) (s : Sys) (hr : Reachable f j cl s) :
+    ∀ w w' t, s.inFlight w t → s.inFlight w' t → w = w' :=
+  (invAll_reachable f j cl wf s hr).h2x.uniq
 
 /-! non-vacuity: a two-task chain on one worker reaches a state where both were dispatched once -/
 section
